@@ -87,6 +87,20 @@ Theorem C16_classification_present :
 Proof. exact classification_present. Qed.
 Print Assumptions C16_classification_present.
 
+(* ---- state-dependent paths of the native gate: the Policy fee whitelist ---- *)
+(* whether a native method runs depends only on (required flags, context flags); the whitelist only changes the fee *)
+Theorem C16_whitelist_affects_fee_only : forall required current wl wl' fee,
+  gate_runs (native_call_gate required current wl fee) = gate_runs (native_call_gate required current wl' fee) /\
+  (gate_runs (native_call_gate required current wl fee) = true <-> has current required = true).
+Proof. exact whitelist_affects_fee_only. Qed.
+Print Assumptions C16_whitelist_affects_fee_only.
+
+(* the nesting in which the flag check sits inside the "not whitelisted => charge" branch does not have the property *)
+Definition C16_nested_gate_statement : Prop := nested_gate_statement.
+Theorem C16_nested_gate_refuted : ~ C16_nested_gate_statement.
+Proof. exact nested_gate_refuted. Qed.
+Print Assumptions C16_nested_gate_refuted.
+
 (* ---- corollaries on the effect machine over the generated tables, for every program (call tree) ---- *)
 (* every write / notification is performed by a frame whose flags are within the initial ones and contain the bit *)
 Theorem C16_writes_notifies_in_order : forall i f, Forall (eff_ok_wn f) (fst (exec_now f i)).
